@@ -352,9 +352,11 @@ fn line_source_faults(ctx: &mut Ctx, t: bool) {
 }
 
 fn duplicates(ctx: &mut Ctx, t: bool) {
-    let mut sizes: Vec<usize> = vec![2, 3, 5, 12];
+    // 200 000 keys = 4 shards: with 1 or 2 solver threads a failing attempt leaves shards unconsumed, so the
+    // early-exit path of the solver protocol (feeder blocked on a full channel) is exercised
+    let mut sizes: Vec<usize> = vec![2, 3, 5, 12, 200_000];
     if t {
-        sizes.extend([40, 10_000, 120_000]);
+        sizes.extend([40, 10_000, 120_000, 800_000]);
     }
     for n in sizes {
         // placements: every pair (i, j) for small n, a few for large n
@@ -372,14 +374,17 @@ fn duplicates(ctx: &mut Ctx, t: bool) {
             placements.push((0..n).collect());
         } else {
             placements.extend([vec![0, 1], vec![0, n - 1], vec![n / 2, n / 2 + 1], vec![n - 2, n - 1], vec![7, n / 3, n - 5]]);
+            if !t {
+                placements.truncate(2);
+            }
         }
         for pl in placements {
             for kind in KINDS {
                 if n > 1000 && !matches!(kind, Kind::FuncShards | Kind::FilterShards) {
                     continue;
                 }
-                for threads in [1usize, 3] {
-                    if n > 12 && threads == 1 {
+                for threads in [1usize, 2, 3, 8] {
+                    if (n <= 12 && (threads == 2 || threads == 8)) || (n > 12 && n < 200_000 && threads != 3) || (n == 200_000 && threads > 2) || (n == 800_000 && threads != 8 && threads != 2) {
                         continue;
                     }
                     if !ctx.case(|| format!("VBuilder::try_build kind={kind:?} n={n} duplicate keys at positions {:?} check_dups=true threads={threads}", &pl[..pl.len().min(6)])) {
@@ -403,7 +408,9 @@ fn duplicates(ctx: &mut Ctx, t: bool) {
                                     if !e.contains("Duplicate key") {
                                         ctx.violation("C17|VBuilder::try_build|wrong-error-for-duplicate-keys", format!("kind={kind:?} n={n} dup at {pl:?}: {e}"));
                                     }
-                                    if passes != 4 {
+                                    // (above the sharding threshold other transient failures - a too large shard, an
+                                    // unsolvable shard - legitimately add attempts: only the lower bound is fixed there)
+                                    if passes < 4 || (n < 100_000 && passes != 4) {
                                         ctx.violation("C17|VBuilder::try_build|attempts-not-bounded-as-documented", format!("kind={kind:?} n={n} dup at {pl:?}: DuplicateKey after {passes} signature passes (4 expected)"));
                                     }
                                 }
